@@ -262,6 +262,8 @@ func init() {
 		[]Stage{en("crash08", 16, 70, prm("oracle", "c08", "len", 4, "alphabet", "T2 TV TD WB F C R")),
 			// a read transaction's open iterator pins the memtables it was created over (and, before the fix, their WALs): later deletes are flushed and compacted away, then the crash
 			en("crash08", 16, 30, prm("oracle", "c08", "len", 1, "alphabet", "T2", "scripted", "T2 IO F TD F C;T2 IO TD F C T2;TV IO F TD F C IC;T2 F IO TD F C")),
+			// ValueThreshold 1: every value, including the decimal commit timestamp that ends a transaction in the WAL, is above the threshold
+			en("crash08", 16, 30, prm("oracle", "c08", "len", 3, "alphabet", "T2 TV F", "value_threshold", 1)),
 			sched("crash08c", 2, 16, 30, prm("threads", 2))},
 		[]Stage{en("crash08", 16, 900, prm("oracle", "c08", "len", 5, "alphabet", "T2 TV TD WB F C R GC")), sched("crash08c", 2, 16, 300, prm("threads", 2)), sched("crash08c", 2, 16, 600, prm("threads", 3))})
 	planTable["C09"] = crashPlan("For every write step (WAL and value-log mmap writes, MANIFEST appends) of every history, the written file is torn at EVERY byte offset of the bytes that step changed (remainder as before the step: for the pre-allocated mmap logs zeros up to the old length and, additionally, the file ending at the cut; for the MANIFEST both cut short and zero-filled to the new length), all other files as before the step; plain and encrypted. Each image must Open and show a commit-order prefix containing every acknowledged operation, the in-flight transaction present as a whole or not at all.",
@@ -271,6 +273,8 @@ func init() {
 	planTable["C10"] = crashPlan("SyncWrites on. For every persistence step of every history the power-loss image is constructed from the event log (file contents as of the last completed msync/fsync/O_DSYNC write of that inode, directory entries as of the last completed directory fsync) and recovered: it must Open and contain every acknowledged operation as a commit-order prefix. Concurrent part: three committers on a nearly full memtable (so that two requests are written as one batch with a memtable/WAL rotation between them), every persistence step a schedule point, interleavings up to the preemption bound; the power-loss image of every step of every schedule must contain the commits acknowledged by then. Variants: Dir and ValueDir as different directories (each with its own directory fsyncs; sequential histories and the concurrent scenario), and the concurrent scenario with value-log values while the value log rotates in the middle of a batch of two requests.",
 		"Power-loss model: only explicitly synced contents and directory entries survive; file sizes travel with the directory entry; everything present when Open returned is taken as durable.",
 		[]Stage{en("crash10", 16, 80, prm("oracle", "c08", "sync_writes", true, "len", 4, "alphabet", "T2 TV TD WB F C R")),
+			// ValueThreshold 1 (see C08)
+			en("crash10", 16, 30, prm("oracle", "c08", "sync_writes", true, "len", 3, "alphabet", "T2 TV F", "value_threshold", 1)),
 			// Dir and ValueDir are different directories: each has its own directory fsyncs
 			en("crash10", 16, 40, prm("oracle", "c08", "sync_writes", true, "separate_value_dir", true, "len", 3, "alphabet", "T2 TV WB F C")),
 			sched("crash10c", 1, 16, 45, nil), sched("crash10c", 1, 16, 30, prm("separate_value_dir", true)), sched("crash10c", 1, 16, 30, prm("vlog", true))},
